@@ -64,12 +64,19 @@ fn typed(t: u8, v: u64) -> u64 {
 }
 
 fn extend_writer(w: &mut IntVectorWriter, t: u8, vals: &[u64]) {
-    match t % 5 {
-        0 => w.extend(vals.iter().map(|&v| v as u8)),
-        1 => w.extend(vals.iter().map(|&v| v as u16)),
-        2 => w.extend(vals.iter().map(|&v| v as u32)),
-        3 => w.extend(vals.iter().copied()),
-        _ => w.extend(vals.iter().map(|&v| v as usize)),
+    // t / 5 selects the kind of iterator: exact size hint, or a filtered one whose lower bound is 0
+    let inexact = (t / 5) % 2 == 1;
+    match (t % 5, inexact) {
+        (0, false) => w.extend(vals.iter().map(|&v| v as u8)),
+        (1, false) => w.extend(vals.iter().map(|&v| v as u16)),
+        (2, false) => w.extend(vals.iter().map(|&v| v as u32)),
+        (3, false) => w.extend(vals.iter().copied()),
+        (_, false) => w.extend(vals.iter().map(|&v| v as usize)),
+        (0, true) => w.extend(vals.iter().map(|&v| v as u8).filter(|_| true)),
+        (1, true) => w.extend(vals.iter().map(|&v| v as u16).filter(|_| true)),
+        (2, true) => w.extend(vals.iter().map(|&v| v as u32).filter(|_| true)),
+        (3, true) => w.extend(vals.iter().copied().filter(|_| true)),
+        (_, true) => w.extend(vals.iter().map(|&v| v as usize).filter(|_| true)),
     }
 }
 
@@ -129,7 +136,7 @@ impl Prop for C12 {
             2 => Just(Buf::ExactData),
         ];
         let ending = prop_oneof![3 => Just(Ending::Close), 2 => Just(Ending::CloseTwice), 3 => Just(Ending::Drop), 1 => Just(Ending::CloseThenDrop)];
-        let int_push = prop_oneof![6 => value.clone().prop_map(IntPush::Push), 1 => (0u8..5, proptest::collection::vec(value.clone(), 0..20)).prop_map(|(t, v)| IntPush::Extend(t, v))];
+        let int_push = prop_oneof![6 => value.clone().prop_map(IntPush::Push), 1 => (0u8..10, proptest::collection::vec(value.clone(), 0..20)).prop_map(|(t, v)| IntPush::Extend(t, v))];
         let raw_push = prop_oneof![2 => any::<bool>().prop_map(RawPush::Bit), 5 => (value, 0u8..=64).prop_map(|(v, w)| RawPush::Int(v, w))];
         prop_oneof![
             (any::<u8>(), buf.clone(), proptest::collection::vec(int_push, 0..max_items), ending.clone(), proptest::bool::weighted(0.25)).prop_map(|(width, buf, hist, ending, preexisting)| Case::Int { width, buf, hist, ending, preexisting }),
